@@ -22,7 +22,7 @@
 (* whole-run function so that properties relating SEVERAL runs (budget     *)
 (* monotonicity, switch independence) can be stated.                       *)
 (***************************************************************************)
-EXTENDS Integers, Sequences, FiniteSets, TLC
+EXTENDS Addressing, FiniteSets, TLC
 
 UNKNOWN == -1000000000     \* the value of a symbol that has not been computed yet
 
@@ -31,38 +31,6 @@ Merge(a, b) == IF a = "U" \/ b = "U" THEN "U" ELSE "R"
 Has(f, k) == k \in DOMAIN f
 Get(f, k, d) == IF k \in DOMAIN f THEN f[k] ELSE d
 Put(f, k, v) == [x \in DOMAIN f \cup {k} |-> IF x = k THEN v ELSE f[x]]
-
-(***************************************************************************)
-(* Banks: [unit, addr, size (-1 = unbounded), outp (-1 = none), fill,      *)
-(* labelalign (0 = none)]; all in bits except addr (in units).  Banks are  *)
-(* numbered from 1 here (bank index in the code + 1).                      *)
-(***************************************************************************)
-
-\* number of bits from absolute bit address `abs' up to the next multiple of a
-BitsUntilAligned(abs, a) ==
-    IF a = 0 THEN 0
-    ELSE LET ex == abs % a IN IF ex = 0 THEN 0 ELSE a - ex
-
-\* src/asm/resolver/iter.rs get_address / eval_address: the address of bit
-\* cursor `pos' in bank b (floor when the cursor is inside a unit)
-AddressOf(b, pos) == b.addr + (pos \div b.unit)
-Misaligned(b, pos) == pos % b.unit # 0
-
-\* cursor after an item, given what is stored for it after its visit
-AdvanceSized(pos, size) == pos + size
-AdvanceRes(pos, resbits) == pos + resbits
-AdvanceAlign(b, pos, a) == pos + BitsUntilAligned(b.addr * b.unit + pos, a)
-AdvanceAddr(b, a) == IF a >= b.addr THEN (a - b.addr) * b.unit ELSE 0
-
-\* cursor at which a depth-0 symbol is visited in a label-aligned bank
-LabelAlignedPos(b, pos, depth) ==
-    IF b.labelalign # 0 /\ depth = 0
-    THEN pos + BitsUntilAligned(b.addr * b.unit + pos, b.labelalign)
-    ELSE pos
-
-AddrInRange(b, a) ==
-    /\ a >= b.addr
-    /\ (b.size >= 0 => (a - b.addr) * b.unit < b.size)
 
 (***************************************************************************)
 (* The pass protocol (resolve_iteratively).                                *)
